@@ -37,10 +37,11 @@ var Properties = map[string]PropertyDef{
 	}},
 	"C01": {Cases: C01Cases, Config: func(tier string) Config {
 		c := Config{
-			Functions: []string{"dkls23 signing_bbot.NewCosigner / Cosigner.Round1–Round4", "dkls23 keygen.NewShard", "rvole/bbot Alice/Bob rounds", "ecbbot rounds", "ecdsa.NewSuite / DigestToScalar", "signing.NewCosigner", "Cosigner.Round1/Round2/Round3/ComputePartialSignature/computeEffectivePartialPublicKeys", "signing.NewAggregator/NewCosigningAggregator", "Aggregator.Aggregate", "hjky.Participant.Round1/Round2", "lindell22 dlogProve/dlogVerify (Fiat–Shamir Schnorr PoK)", "hashcom Commit/Open (real BLAKE2b over handles)", "schnorrlike.VerifierTrait.Verify", "feldman.Scheme.ConvertShareToAdditive/ConvertLiftedShareToAdditive", "kw/msp ReconstructionCoefficients", "przs.SampleZeroShare", "trusteddealer.Deal", "keygen.NewShard"},
-			Bounds:    map[string]any{"protocol": "Lindell22 with the vanilla (configurable) Schnorr variant, both response signs, Fiat–Shamir compiler, round-by-round API", "dkls23-softspoken": "the SoftSpoken variant (ECBBOT base OTs, SoftSpoken OT extension executed concretely on the bytes derived from interned encodings, RVOLE over it), rounds 1–5, same obligations", "dkls23": "DKLs23 threshold ECDSA, bbot variant (RVOLE over ECBBOT), rounds 1–4 of every cosigner for a 2-party quorum of a 2-of-3 structure (thorough: a CNF structure and a 3-party quorum) with all randomness symbolic: nobody aborts (measure-zero validator refusals excluded), all cosigners report the same R, and the partial signatures satisfy (Σw)·k = (m + r_x·x)·(Σu) with k = dlog R, x = dlog PK, r_x the opaque x-coordinate of R as the library converts it, Σu ≠ 0 — the ECDSA equation for s = Σw/Σu, stated without inversion", "structures/quorums": "threshold, unanimity, CNF, hierarchical, non-ideal gate tree; minimal quorums and minimal+1 (≤3 quorums per structure in quick)", "shares, nonces, zero shares": "symbolic mod the real group order", "messages": "2 concrete messages"},
-			Assumes:   []string{"random-oracle idealisation for transcript/commitment hashes (interned handles)", "fresh random draws are non-zero", "the measure-zero refusals the code itself documents are excluded: effective partial public key = identity (retry abort), aggregated s = 0 or R = identity (shown to be the only way an aggregator can refuse)"},
-			Outside:   []string{"DKLs23 (OT over scalar bytes, x-coordinate of R), Lindell17 (Paillier), Boldyreva BLS (pairing), CGGMP21", "BIP-340 / Mina variants (parity of an affine coordinate)", "networked runner API", "real curves"},
+			Functions: []string{"dkls23 signing_bbot.NewCosigner / Cosigner.Round1–Round4", "dkls23 keygen.NewShard", "rvole/bbot Alice/Bob rounds", "ecbbot rounds", "ecdsa.NewSuite / DigestToScalar", "signing.NewCosigner", "Cosigner.Round1/Round2/Round3/ComputePartialSignature/computeEffectivePartialPublicKeys", "signing.NewAggregator/NewCosigningAggregator", "Aggregator.Aggregate", "hjky.Participant.Round1/Round2", "lindell22 dlogProve/dlogVerify (Fiat–Shamir Schnorr PoK)", "hashcom Commit/Open (real BLAKE2b over handles)", "schnorrlike.VerifierTrait.Verify", "feldman.Scheme.ConvertShareToAdditive/ConvertLiftedShareToAdditive", "kw/msp ReconstructionCoefficients", "przs.SampleZeroShare", "trusteddealer.Deal", "keygen.NewShard",
+				"boldyreva02 keygen.NewShortKeyShard/NewLongKeyShard", "boldyreva02 signing.NewShortKeyCosigner/NewLongKeyCosigner, Cosigner.ProducePartialSignature", "boldyreva02 signing.NewShortKeyAggregator/NewLongKeyAggregator, Aggregator.Aggregate", "boldyreva02.PartialSignature.Validate", "bls.Scheme.Signer/Verifier, Signer.Sign, Verifier.Verify, coreSign/coreVerify/popVerify", "feldman.Scheme.ReconstructInTheExponent"},
+			Bounds:  map[string]any{"boldyreva02": "threshold BLS over the pairing model (G1, G2, GT in discrete-log representation, e([a]g1,[b]g2)=gT^(ab); hash-to-curve outputs = fresh symbolic discrete logs, pairwise distinct): dealer randomness symbolic; keys in G1 and in G2; Basic, MessageAugmentation and POP; every protocol structure incl. the non-ideal one (a holder with two MSP rows); ≤2 quorums per structure in quick: the aggregator accepts the honest partial signatures, the result verifies under the joint key with the standard verifier of the target scheme and equals [x]·H(m); cosigner constructors refuse an unqualified quorum", "protocol": "Lindell22 with the vanilla (configurable) Schnorr variant, both response signs, Fiat–Shamir compiler, round-by-round API", "dkls23-softspoken": "the SoftSpoken variant (ECBBOT base OTs, SoftSpoken OT extension executed concretely on the bytes derived from interned encodings, RVOLE over it), rounds 1–5, same obligations", "dkls23": "DKLs23 threshold ECDSA, bbot variant (RVOLE over ECBBOT), rounds 1–4 of every cosigner for a 2-party quorum of a 2-of-3 structure (thorough: a CNF structure and a 3-party quorum) with all randomness symbolic: nobody aborts (measure-zero validator refusals excluded), all cosigners report the same R, and the partial signatures satisfy (Σw)·k = (m + r_x·x)·(Σu) with k = dlog R, x = dlog PK, r_x the opaque x-coordinate of R as the library converts it, Σu ≠ 0 — the ECDSA equation for s = Σw/Σu, stated without inversion", "structures/quorums": "threshold, unanimity, CNF, hierarchical, non-ideal gate tree; minimal quorums and minimal+1 (≤3 quorums per structure in quick)", "shares, nonces, zero shares": "symbolic mod the real group order", "messages": "2 concrete messages"},
+			Assumes: []string{"random-oracle idealisation for transcript/commitment hashes (interned handles)", "fresh random draws are non-zero", "the measure-zero refusals the code itself documents are excluded: effective partial public key = identity (retry abort), aggregated s = 0 or R = identity (shown to be the only way an aggregator can refuse)"},
+			Outside: []string{"Lindell17 (Paillier), CGGMP21", "the pairing itself, hash-to-curve, subgroup membership of decoded points (bls12381 arithmetic is replaced by the bilinear model)", "BIP-340 / Mina variants (parity of an affine coordinate)", "networked runner API", "real curves"},
 		}
 		return c
 	}},
@@ -71,11 +72,12 @@ var Properties = map[string]PropertyDef{
 	"C04": {Cases: C04Cases, Config: func(tier string) Config {
 		c := Config{
 			Functions: []string{"gennaro.Participant.Round1/Round2/Round3 (consuming rounds under deviation)", "gennaro message Validate", "network.ValidateIncomingMessages", "pedersen.Scheme.Verify", "feldman.Scheme.Verify", "fiatshamir Verifier.Verify / zkmodule.Verify", "batch_schnorr / okamoto Verify", "base.GetMaliciousIdentities / ShouldAbort", "mpc.NewBaseShard",
-				"redistribute.Participant.Round2/Round3 and Round1Broadcast/Round1P2P/Round2Broadcast/Round2P2P.Validate under deviation", "hjky.Participant.Round2 under deviation", "lindell22 signing.Cosigner.Round2/Round3, Aggregator.Aggregate under deviation", "canetti.Participant.Round2/Round3/Round4 under deviation", "dkls23 signing_bbot Cosigner.Round3/Round4 and rvole/bbot Bob.Round4 under deviation"},
+				"redistribute.Participant.Round2/Round3 and Round1Broadcast/Round1P2P/Round2Broadcast/Round2P2P.Validate under deviation", "hjky.Participant.Round2 under deviation", "lindell22 signing.Cosigner.Round2/Round3, Aggregator.Aggregate under deviation", "canetti.Participant.Round2/Round3/Round4 under deviation", "dkls23 signing_bbot Cosigner.Round3/Round4 and rvole/bbot Bob.Round4 under deviation", "boldyreva02 signing.Aggregator.Aggregate and PartialSignature.Validate under deviation"},
 			Bounds: map[string]any{"deviation": "one field of one message of one sender (per-recipient for unicasts, uniform for broadcasts), or the deviator's whole dealing / starting shard replaced by a self-consistent forgery; offset δ symbolic with δ≠0",
 				"faults gennaro":      "unicast share secret/blinding component, Pedersen / Feldman vector entries (proof unchanged), Feldman vector re-proved by the deviator for another column, vectors truncated/extended by one entry, dropped broadcast",
 				"faults canetti":      "round-1 commitment bit, opened message: vector entry shifted (δ), rho bit, witness bit, wrong sharing ID; private share shifted / extended / truncated; round-3 proof response / commitment shifted (δ)",
 				"faults dkls23":       "DKLs23 (bbot) signing, 2-party quorum: opened nonce point R (round 2), public key share (round 3 broadcast), Γ_U, Γ_V, one entry of the RVOLE ATilde matrix, one entry of η (round 3 unicast), each shifted by δ: every honest cosigner rejects, blames the deviator where the check is per-sender, abort demanded",
+				"faults boldyreva02":  "threshold BLS (pairing model), every rogue-key mode: a message-signature component or a POP component shifted by δ, a component dropped / duplicated, two components swapped (non-ideal structure), partial signature over another message: the aggregator refuses and tags the deviator",
 				"faults lindell22":    "partial signature response / nonce commitment, opened nonce, zero-sharing dealing replaced by a consistent dealing of δ (deviator at each of the 3 positions), zero share shifted",
 				"faults redistribute": "zero-sharing dealing of δ, zero share / zero vector entry shifted, next-share contribution shifted / extended / truncated, next / previous / zero verification vector entries shifted, forged self-consistent previous shard; refresh, recovery with and without anchor, redistribution to multi-row structures; deviator at every previous-holder position",
 				"structures":          "threshold, CNF, non-ideal gate tree (3 parties); more in thorough"},
@@ -107,10 +109,11 @@ var Properties = map[string]PropertyDef{
 	}},
 	"C15": {Cases: C15Cases, Config: func(tier string) Config {
 		c := Config{
-			Functions: []string{"schnorrlike/schnorr.NewScheme/Signer/Verifier", "schnorrlike.SignerTrait.Sign", "schnorrlike.VerifierTrait.Verify", "schnorr.Variant.ComputeNonceCommitment/ComputeChallenge/ComputeResponse", "schnorrlike.ComputeGenericNonceCommitment/ComputeGenericResponse/MakeGenericChallenge", "ecdsa.NewSignature"},
-			Bounds:    map[string]any{"private key, nonce, tampering offset": "symbolic over GF(q)", "configurations": "response sign ±, byte order, sha256/sha512, 3 messages"},
-			Assumes:   []string{"challenge = real hash of interned handles (random-oracle idealisation): equal hashed values ⇔ equal handles", "fresh nonces are non-zero (probability 1/q excluded)"},
-			Outside:   []string{"ECDSA verification/recovery/normalisation (crypto/ecdsa, integer comparison of scalars)", "BIP-340, Mina (parity of an affine coordinate)", "BLS (pairing)", "published vectors"},
+			Functions: []string{"schnorrlike/schnorr.NewScheme/Signer/Verifier", "schnorrlike.SignerTrait.Sign", "schnorrlike.VerifierTrait.Verify", "schnorr.Variant.ComputeNonceCommitment/ComputeChallenge/ComputeResponse", "schnorrlike.ComputeGenericNonceCommitment/ComputeGenericResponse/MakeGenericChallenge", "ecdsa.NewSignature",
+				"bls.NewShortKeyScheme/NewLongKeyScheme", "bls.NewPrivateKey/NewPublicKey/NewSignature/NewProofOfPossession", "bls.Signer.Sign", "bls.Verifier.Verify/AggregateVerify", "bls.Scheme.AggregateSignatures", "bls.VerifyWithProofsOfPossession", "bls.AugmentMessage", "bls coreSign/coreVerify/coreAggregateVerify/popProve/popVerify"},
+			Bounds:  map[string]any{"bls": "BLS over the pairing model (bilinear map on discrete logs, hash-to-curve outputs symbolic and pairwise distinct), keys in G1 and in G2 × Basic / MessageAugmentation / POP × 2 signers (thorough: 3): sign→verify accepts; a signature or an aggregate shifted by any δ≠0 is rejected; acceptance under another key ⇒ equal keys; aggregate of honest signatures verifies; aggregate with a key missing is rejected; POP mode refuses fewer proofs than keys (and none at all); rogue key pk_r = [x]g − pk_victim with an arbitrary claimed proof: acceptance ⇒ the claimed proof IS the proof of possession of pk_r", "private key, nonce, tampering offset": "symbolic over GF(q)", "configurations": "response sign ±, byte order, sha256/sha512, 3 messages"},
+			Assumes: []string{"challenge = real hash of interned handles (random-oracle idealisation): equal hashed values ⇔ equal handles", "fresh nonces are non-zero (probability 1/q excluded)"},
+			Outside: []string{"ECDSA verification/recovery/normalisation (crypto/ecdsa, integer comparison of scalars)", "BIP-340, Mina (parity of an affine coordinate)", "bls12381 arithmetic itself (pairing, hash-to-curve, subgroup checks: replaced by the bilinear model); BLS key generation from a seed (HKDF, concrete)", "published vectors"},
 		}
 		if tier == "thorough" {
 			c.Moduli = []string{"secp256k1", "ed25519", "pallas"}
